@@ -40,7 +40,7 @@ COMPONENTS = {
     "stub": ["CAN backend (SimBus)", "can.Notifier", "time/queue in canopen.sdo.client", "RefSdoClient (set-up ii)", "RefSdoServer (set-up iii)"],
 }
 PROBES = ["read-wo", "write-ro", "missing-index", "missing-sub", "wrong-length", "no-value", "toggle-up", "toggle-down",
-          "unknown-command", "client-decoding", "valid-after-refusal"]
+          "unknown-command", "client-decoding", "valid-after-refusal", "refusal-on-closing-segment-of-undeclared-stream"]
 
 WO, RO, NOOBJ, NOSUB, LEN, LEN_HI, LEN_LO, NOVAL1, NOVAL2, TOGGLE, CMD = (
     0x06010001, 0x06010002, 0x06020000, 0x06090011, 0x06070010, 0x06070012, 0x06070013, 0x060A0023, 0x08000024, 0x05030000, 0x05040001)
@@ -146,6 +146,20 @@ def _expect_refusal(ctx, w, what, kind, codes, mux, exc, mark, snap, nlog, key_e
     ctx.probe(kind.split("-seg")[0].split("-exp")[0])
 
 
+def _dl(ctx, node, index, sub, data, seg):
+    """download through download() or - segmented only - through a stream whose size is not declared"""
+    if seg and ctx.choice(3, "viastream") == 0:
+        def do():
+            with node.sdo.open(index, sub, "wb", buffering=(7, 0, 1024)[ctx.choice(3, "sbuf")]) as fp:
+                p = 0
+                while p < len(data):
+                    n = fp.write(data[p:])      # (a raw stream takes at most one segment per call)
+                    p += n if n else len(data)
+        ctx.probe("refusal-on-closing-segment-of-undeclared-stream")
+        return call(do)
+    return call(node.sdo.download, index, sub, data, seg)
+
+
 def _refusal_i(ctx, w, entries, pos, forced=None):
     """Provoke one refusal through the real client API."""
     node = w.node
@@ -179,7 +193,7 @@ def _refusal_i(ctx, w, entries, pos, forced=None):
         if e.dtype in codec.NUMERIC and ln != w_:
             codes |= {LEN, LEN_HI if ln > w_ else LEN_LO}
         what = "write of %d bytes (%s) to %s %04X:%02X" % (ln, "segmented" if seg else "expedited", e.access, e.index, e.sub)
-        _, exc = call(node.sdo.download, e.index, e.sub, data, seg)
+        _, exc = _dl(ctx, node, e.index, e.sub, data, seg)
         mux = (e.index, e.sub)
         kind = "write-ro-seg" if seg else "write-ro-exp"
     elif kind == "missing-index":
@@ -198,7 +212,7 @@ def _refusal_i(ctx, w, entries, pos, forced=None):
             ln = ctx.choice(10, "len")
             seg = ln > 4 or ln == 0 or ctx.choice(2, "seg") == 1
             what = "write of %d bytes (%s) to missing object %04X:%02X" % (ln, "segmented" if seg else "expedited", index, sub)
-            _, exc = call(node.sdo.download, index, sub, world.pattern(ln, 5), seg)
+            _, exc = _dl(ctx, node, index, sub, world.pattern(ln, 5), seg)
         kind = "missing-index" + ("" if rd else ("-seg" if seg else "-exp"))
     elif kind == "missing-sub":
         recs = {}
@@ -242,7 +256,7 @@ def _refusal_i(ctx, w, entries, pos, forced=None):
             seg = True
         codes = {LEN, LEN_HI if ln > w_ else LEN_LO}
         what = "write of %d bytes (%s) to %s %04X:%02X (%d bytes wide)" % (ln, "segmented" if seg else "expedited", codec.NAMES[e.dtype], e.index, e.sub, w_)
-        _, exc = call(node.sdo.download, e.index, e.sub, world.pattern(ln, 9), seg)
+        _, exc = _dl(ctx, node, e.index, e.sub, world.pattern(ln, 9), seg)
         mux = (e.index, e.sub)
         kind = "wrong-length-seg" if seg else "wrong-length-exp"
     else:
